@@ -82,6 +82,7 @@ inductive SysOp where
   | bAckIn (now : Time) (p : Packet)   -- `b` is handed an acknowledgement (not of SYN / CONNECT / DISCONNECT) of its own traffic
   | bFireResend (now : Time) (p : Packet) (k : Nat)  -- a retransmission timer of `b` (for its own traffic) fires, within the budget
   | bFrag (now : Time) (f : Frag)      -- one turn of the fragment loop of a `send` of `b` (its own traffic, this substream)
+  | aInject (now : Time) (p : Packet)  -- ANY packet whose signature is not the one `a` expects is handed to `a.handle`
   | fireResend (now : Time) (p : Packet) (k : Nat)  -- a retransmission timer of `a` that holds `p` (counter `k`) fires
   | ackIn (now : Time) (p : Packet)    -- `a.handle` is handed ANY acknowledgement (ACK or aggregate MULTI_ACK flag; true, stale,
                                        -- coalesced or forged) of a non-handshake packet
@@ -151,6 +152,7 @@ def Sys.step (env : Env) (sub : Nat) (s : Sys) : SysOp → Sys
   | .bAckIn now p => { s with b := (s.b.handle env now p).c }
   | .bFireResend now p k => { s with b := (s.b.fireOne env now (.resend p k)).c }
   | .bFrag now f => { s with b := (s.b.sendPacket env now (dataPacket sub f)).c }
+  | .aInject now p => { s with a := (s.a.handle env now p).c }
 
 def Sys.run (env : Env) (sub : Nat) (s : Sys) (ops : List SysOp) : Sys := ops.foldl (Sys.step env sub) s
 
@@ -192,6 +194,7 @@ def Sys.opOk (env : Env) (sub : Nat) (s : Sys) : SysOp → Bool
       decide (p.type ≠ TYPE_DISCONNECT)
   | .bFireResend _ _ k => decide (k < s.b.resendLimit) && s.b.linkUp   -- beyond the budget `b` tears its own connection down
   | .bFrag _ _ => true
+  | .aInject _ p => decide (p.signature ≠ s.a.expectedSig env p)
 
 def Sys.runOk (env : Env) (sub : Nat) : Sys → List SysOp → Bool
   | _, [] => true
@@ -659,6 +662,7 @@ def Sys.absOp (env : Env) (sub : Nat) (s : Sys) : SysOp → Option Op
   | .bAckIn _ _ => none
   | .bFireResend _ _ _ => none
   | .bFrag _ _ => none
+  | .aInject _ _ => none
 
 def stepOpt (ci : Cipher) (size : Nat) (ch : Chan) : Option Op → Chan
   | none => ch
@@ -1022,6 +1026,12 @@ theorem cpl_step (env : Env) (hround : ∀ b, env.decompress (env.compress b) = 
         simp only [Chan.opOk]
         rw [← h.nrel, ← h.log, List.length_map]
         exact hok
+  | aInject now p =>
+    simp only [Sys.absOp, stepOpt, Sys.step]
+    simp only [Sys.opOk, decide_eq_true_eq] at hok
+    have := (handle_bad_signature env now s.a p hok).1
+    rw [this]
+    exact ⟨h, fun o ho => by cases ho⟩
   | inject now p =>
     simp only [Sys.absOp, stepOpt, Sys.step]
     simp only [Sys.opOk, decide_eq_true_eq] at hok
@@ -1186,6 +1196,11 @@ theorem timers_step (env : Env) (sub : Nat) (s : Sys) (op : SysOp) (h : TimersOk
   | bAckIn now p => exact h
   | bFireResend now p k => exact h
   | bFrag now f => exact h
+  | aInject now p =>
+    simp only [Sys.opOk, decide_eq_true_eq] at hok
+    have := (handle_bad_signature env now s.a p hok).1
+    simp only [Sys.step, this]
+    exact h
 
 /-- **a retransmission is a re-delivery**: when a retransmission timer of the sender that holds a packet of the channel fires,
     what is handed to the transport is that very packet (or nothing), and it is an element of `net` — a copy of something
